@@ -2,7 +2,7 @@
 import re
 
 import lib
-from lib import sx, parse_sx
+from lib import sx
 from gen import ctable, reqtext, cdump
 
 PROOF_FILE = "C11"
@@ -11,6 +11,8 @@ RULE = ("requirement strings per system (Default, NPM, Cargo, Go, NuGet), gramma
         "prerelease bounds, every operator (so that ∞ components, the minimum 0.0.0-0, Go's v prefix and NuGet lower-casing "
         "occur in the printed sets), 5% mutated; ~20 probe versions per requirement (every version literal of the text byte for byte as written, "
         "bounds, neighbours in each component, prerelease neighbours, random); 8% of the Default/NPM/Cargo requirements are "
+        "a second pass adds every bound of the spans Go holds for the set and for the re-parsed set (∞ as 2^63-2 and 2^63-1) with neighbours; NuGet labels appear in upper and mixed case and probes with four numbers; "
+        "the share of sets inside the computable hypothesis of C11_reparse_checked is counted and a failed round trip inside it is a divergence; "
         "and-lists that collapse to a single version (>a <=inc(a), >=a <=a, >a inc(a), either order). Go prints Set.String, parses it with ParseSetConstraint, prints again, and reports "
         "MatchVersionPrerelease of every probe before and after; the extracted model does the same from the same parse tables. "
         "A case is non-trivial when the requirement parses and its set has at least one non-empty span")
@@ -37,6 +39,17 @@ MANIFEST = dict(
           "the model (table from Go per case); the hypothesis on bound versions is exercised on every generated bound."),
     technique="Rocq proof over an executable model + differential correspondence + round-trip oracle on Go outputs",
     design="8 C11")
+
+_PARSED = {}
+
+
+def parse_sx(line):
+    """every output line is looked at by several passes: parse it once"""
+    r = _PARSED.get(line)
+    if r is None:
+        r = _PARSED[line] = lib.parse_sx(line)
+    return r
+
 
 SYSTEMS = [0, 4, 1, 2, 5]
 NAMES = ["Default", "Cargo", "Go", "Maven", "NPM", "NuGet", "PyPI", "RubyGems", "Composer"]
@@ -68,7 +81,7 @@ def project(line):
 
 def gen_cases(ctx):
     rng = ctx.rng
-    n = ctx.scale(10000, 500000)
+    n = ctx.scale(8500, 450000)
     cases = []
     for k in range(n):
         sysi = SYSTEMS[k % 5]
@@ -85,16 +98,27 @@ def seed_keys(cases, impl_lines):
     for c, line in zip(cases, impl_lines):
         if line.startswith('("ok"'):
             r = parse_sx(line)
-            s1 = bytes(r[1])
-            inner = s1[1:-1] if len(s1) >= 2 else b""
-            for span in inner.split(b","):
-                if span[:1] in (b"[", b"(") and span[-1:] in (b"]", b")"):
-                    parts = span[1:-1].split(b":")
-                    if len(parts) == 2:
-                        c["keys"].add((0, parts[0]))
-                        c["keys"].add((1, parts[1]))
-                elif span and span != b"<empty>":
-                    c["keys"].add((0, span))
+            c["keys"] |= ctable.set_string_keys(bytes(r[1]))
+
+
+def add_span_probes(ctx, cases):
+    """second probe pass: Go is asked for the set and for the re-parsed set first (no probes);
+    the bounds of their spans, as Go holds them, become probes (never cut), with neighbours"""
+    pre = ctx.impl("setrt", ["(" + " ".join(c["head"][:2]) + " () ())" for c in cases])
+    ctx.evaluations -= len(cases)
+    out = []
+    for c, line in zip(cases, pre):
+        if line.startswith('("ok"'):
+            r = parse_sx(line)
+            spans = [cdump.Span(s) for s in r[4][1]]
+            if r[2][0] == b"ok":
+                spans += [cdump.Span(s) for s in r[2][3][1]]
+            extra = reqtext.span_probes(ctx.rng, c["sys"], spans, have=c["probes"])
+            ctx.count("span-probes:%d" % min(len(extra) // 4 * 4, 24))
+            if extra:
+                c = mk(c["sys"], c["text"], c["probes"] + extra)
+        out.append(c)
+    return out
 
 
 def oracle(ctx, cases, impl_lines):
@@ -137,7 +161,7 @@ def oracle(ctx, cases, impl_lines):
 
 def run(ctx):
     tables = ctable.Tables(ctx)
-    cases = gen_cases(ctx)
+    cases = add_span_probes(ctx, gen_cases(ctx))
     impl_lines = ctx.impl("setrt", ctable.impl_args(cases))
     seed_keys(cases, impl_lines)
     # C11 is about the set of a parsed constraint: the model prints and re-parses the set Go
@@ -163,8 +187,21 @@ def run(ctx):
             nd += 1
             if nd <= 40:
                 ctx.divergence("setrt", {"system": NAMES[c["sys"]], "constraint": c["text"], "probes": c["probes"]}, i[:1500], m[:1500])
+    # the share of the generated sets inside the region of C11_reparse_checked (set_ok_b)
+    inside = set()
+    for k, m in zip(idx, outs):
+        if m.startswith('("ok"'):
+            name = NAMES[cases[k]["sys"]]
+            ctx.count("region:%s:sets" % name)
+            if m.rstrip().endswith(" 1)"):
+                ctx.count("region:%s:inside C11_reparse_checked" % name)
+                inside.add(k)
     open_ids = set(k["id"] for k in lib.load_known("C11") if k.get("status") == "open")
     for (idx, what, inp, obs, req) in oracle(ctx, cases, impl_lines):
+        if idx in inside and project(impl_lines[idx]) == project(model_lines[idx]):
+            # the theorem says the round trip holds for this set: model and proof contradict each other
+            ctx.divergence("theorem-region", inp, "round trip fails inside the region of C11_reparse_checked: " + what, "no hit")
+            continue
         cls = classify(cases[idx], impl_lines[idx]) if project(impl_lines[idx]) == project(model_lines[idx]) else None
         if cls is not None and cls in open_ids:
             ctx.known_hits[cls] = ctx.known_hits.get(cls, 0) + 1
@@ -205,7 +242,7 @@ def classify(case, impl_line):
 
 
 def oracle_only(ctx):
-    cases = gen_cases(ctx)
+    cases = add_span_probes(ctx, gen_cases(ctx))
     impl_lines = ctx.impl("setrt", ctable.impl_args(cases))
     for (idx, what, inp, obs, req) in oracle(ctx, cases, impl_lines):
         ctx.violation(what, inp, obs, req)
